@@ -1204,6 +1204,8 @@ def _loader_cases():
         c.append((t, 'any'))
         c.append((t + '\n', 'any'))
     c.append(('zgood 3 m\nzbad 2 znothing\nzalso 2 zgood\n', 'partial'))
+    # a substance that fails half way must not leave its properties behind as units
+    c.append(('zweight 10 m\nzpallet {\n zweight const zinv 3 m\n zheight const zinvh 2 znothing\n}\nzzdouble 2 zweight\n', 'shadow'))
     return c
 
 
@@ -1219,7 +1221,7 @@ def _loader_witness():
 
     def one(case):
         text, kind = case
-        rc, so, se = _loader_run(text, ['2 km -> m', 'zgood', 'zalso'] if kind == 'partial' else ['2 km -> m'])
+        rc, so, se = _loader_run(text, ['2 km -> m', 'zgood', 'zalso'] if kind == 'partial' else (['2 km -> m', 'zzdouble -> m', 'zweight -> m'] if kind == 'shadow' else ['2 km -> m']))
         first = ([l for l in so.splitlines() if l.startswith('load_definitions:')] or [''])[0]
         if rc == 124:
             return (text, 'loading does not return within 30 s')
@@ -1234,6 +1236,9 @@ def _loader_witness():
                 return (text, 'the unresolved name is not reported: %s' % one_line(first, 200))
             if '3 meter' not in so or '6 meter' not in so:
                 return (text, 'definitions that did load do not answer: %s' % one_line(so, 300))
+        if kind == 'shadow':
+            if '20 meter' not in so or '10 meter' not in so:
+                return (text, 'a property of a rejected substance shadows the unit of the same name: %s' % one_line(so, 300))
         return None
     cases = _loader_cases()
     with _TPE(max_workers=12) as ex:
